@@ -259,6 +259,11 @@ def run(P, R, tier):
     check_mstep_wrapper(P, R)  # MAP trainer -> MAP M-step, with the machine's alpha / relevance factor
     from ..engines import traps as _traps
     _traps.check(P, R, ['gmm'], scope='gmm:(map_gmm_m_step|m_step|GMMMachine\\.(__init__|initialize_gaussians|_\\w+)|_\\w+)$')
+    from ..engines import own as _oro
+    _own_ro = _oro.Own(P)
+    n_ro = 0
+    n_ro += _oro.check_param_readonly(P, R, _own_ro, 'gmm:map_gmm_m_step', ['statistics'], why='the statistics / data handed to one step are changed by it: a second step from the same object (several clients adapted from one set of statistics, a repeated call) computes from different values')
+    R.floor('OWN.readonly parameters', n_ro, 1)
 
 
 EXPLANATION += ' Also: numerator / denominator placement and literal coefficients of the three blends, the sign of the squared adapted mean in the no-evidence fallback of the variances, the no-evidence test compares the responsibility mass with the configured threshold, the relevance-factor flag is passed with the right polarity; all of these are followed into a helper when the blend is factored out.'
